@@ -67,4 +67,101 @@ example : (runOps [.list, .bytes, .listEnd] (newStream [0xc3, 0x82, 0x01, 0x02] 
 example : (runOps [.bytes] (newStream [0xbf, 0xff, 0xff, 0xff, 0xff, 0xff, 0xff, 0xff, 0xff] 0)).allocs = [] := by rfl
 example : (sBytes (newStream [0xbf, 0xff, 0xff, 0xff, 0xff, 0xff, 0xff, 0xff, 0xff] 0)).1 = .error .valueTooLarge := by rfl
 
+theorem willRead_kind (s : Stream) (n : Nat) : (willRead s n).2.kind = none := by
+  unfold willRead willReadLimit
+  simp only
+  split <;> (repeat' split) <;> rfl
+
+theorem readFull_kind (s : Stream) (n : Nat) : (readFull s n).2.kind = none := by
+  have := willRead_kind s n
+  unfold readFull
+  cases hw : willRead s n with
+  | mk oe s1 =>
+    rw [hw] at this
+    cases oe with
+    | some e => exact this
+    | none => simp only; split <;> exact this
+
+theorem readByte_kind (s : Stream) : (readByte s).2.kind = none := by
+  have := willRead_kind s 1
+  unfold readByte
+  cases hw : willRead s 1 with
+  | mk oe s1 =>
+    rw [hw] at this
+    cases oe with
+    | some e => exact this
+    | none => simp only; split <;> exact this
+
+theorem readUint_kind (s : Stream) (n : Nat) : (readUint s n).2.kind = none := by
+  unfold readUint
+  split
+  · rfl
+  · split
+    · have := readByte_kind s
+      cases hb : readByte s with
+      | mk r s1 => rw [hb] at this; cases r <;> exact this
+    · have := readFull_kind s n
+      cases hb : readFull s n with
+      | mk r s1 =>
+        rw [hb] at this
+        cases r with
+        | error e => exact this
+        | ok bs => cases bs with
+          | nil => exact this
+          | cons b0 tl => simp only; split <;> exact this
+
+/-- A successful `Raw()` has consumed its element: `Kind` is re-armed, so the next read starts at the
+    next element — for every element, empty strings and empty lists included. -/
+theorem raw_rearms_kind (s : Stream) (b : Bytes) (h : (sRaw s).1 = .ok b) : (sRaw s).2.kind = none := by
+  unfold sRaw at h ⊢
+  cases hr : sKind s with
+  | mk r s1 =>
+    rw [hr] at h
+    cases r with
+    | error e => cases h
+    | ok ks =>
+      obtain ⟨k, size⟩ := ks
+      simp only at h ⊢
+      have hf := readFull_kind { s1 with allocs := (headsize size + size) :: s1.allocs } size
+      cases k with
+      | byte => rfl
+      | string =>
+        simp only at h ⊢
+        cases hrr : readFull { s1 with allocs := (headsize size + size) :: s1.allocs } size with
+        | mk r2 s2 => (try rw [hrr] at hf); (try rw [hrr] at h); cases r2 with
+          | error e => cases h
+          | ok c => simp only; split <;> exact hf
+      | list =>
+        simp only at h ⊢
+        cases hrr : readFull { s1 with allocs := (headsize size + size) :: s1.allocs } size with
+        | mk r2 s2 => (try rw [hrr] at hf); (try rw [hrr] at h); cases r2 with
+          | error e => cases h
+          | ok c => simp only; split <;> exact hf
+
+/-- the same for `Bytes()` -/
+theorem bytes_rearms_kind (s : Stream) (b : Bytes) (h : (sBytes s).1 = .ok b) : (sBytes s).2.kind = none := by
+  unfold sBytes at h ⊢
+  cases hr : sKind s with
+  | mk r s1 =>
+    rw [hr] at h
+    cases r with
+    | error e => cases h
+    | ok ks =>
+      obtain ⟨k, size⟩ := ks
+      simp only at h ⊢
+      cases k with
+      | byte => rfl
+      | list => cases h
+      | string =>
+        simp only at h ⊢
+        have hf := readFull_kind { s1 with allocs := size :: s1.allocs } size
+        cases hrr : readFull { s1 with allocs := size :: s1.allocs } size with
+        | mk r2 s2 => (try rw [hrr] at hf); (try rw [hrr] at h); cases r2 with
+          | error e => cases h
+          | ok c => simp only at h ⊢; split <;> first | exact hf | (rename_i hc; simp [hc] at h)
+
+-- non-vacuity: Raw on an empty string in the middle of a list, then the next element is read
+example : (runOps [.list, .raw, .raw] (newStream [0xc2, 0x80, 0x05] 0)).consumed = 3 := by rfl
+example : (sRaw (runOps [.list] (newStream [0xc2, 0x80, 0x05] 0))).1 = .ok [0x80] := by rfl
+
 end Rangers.Props.C08
